@@ -67,7 +67,7 @@ Step ==
                 other == FirstIdx(owed, LAMBDA x : x[1] = key[1] /\ x[3] = key[3] /\ x[4] = key[4] /\ x[5] = key[5]) IN
             /\ owed' = IF i = 0 THEN owed ELSE RemoveAt(owed, i)
             /\ v' = HoldV([v EXCEPT !.C11 =
-                     F(F(F(@, e.kind = "exe" /\ pend # <<>>, "C11:before-holdings"),
+                     F(F(F(@, e.kind = "exe" /\ (pend # <<>> \/ e.hold # led), "C11:before-holdings-of-the-whole-round"),
                          i = 0 /\ other # 0, IF e.kind = "exe" THEN "C11:wrong-party-or-record" ELSE "C11:wrong-party"),
                          i = 0 /\ other = 0, "C11:extra-" \o e.kind)], e, led)
             /\ UNCHANGED <<led, led0, pend>>
